@@ -377,6 +377,7 @@ class SmtLibParser(object):
             '-': self._operator_adapter(self._minus_or_uminus),
             '*': self._operator_adapter(self.Times),
             '/': self._operator_adapter(self._division),
+            'div': self._operator_adapter(self._int_division),
             'pow': self._operator_adapter(mgr.Pow),
             '>': self._operator_adapter(self.GT),
             '<': self._operator_adapter(self.LT),
@@ -638,6 +639,14 @@ class SmtLibParser(object):
             return mgr.Real(Fraction(left.constant_value()) /
                             Fraction(right.constant_value()))
         return self.Div(left, right)
+
+    def _int_division(self, left: FNode, right: FNode) -> FNode:
+        """Utility function that builds an integer division (div)"""
+        mgr = self.env.formula_manager
+        if not (self.get_type(left).is_int_type() and
+                self.get_type(right).is_int_type()):
+            raise PysmtTypeError("The arguments of 'div' must be integers")
+        return mgr.Div(left, right)
 
     def _get_var(self, name: str, type_name: PySMTType) -> FNode:
         """Returns the PySMT variable corresponding to a declaration"""
